@@ -48,6 +48,8 @@ def scenarios(tier):
     # workers that are still there for an instant after their SIGKILL: whoever forgets them right away leaves their
     # collection to the next periodic check
     out.append(Scenario('acct', pat='stubborn-lag', hook=None, fault=None, tier=tier))
+    # a grace period the 0.1 s polling loop lands on exactly (0.1 + 0.1 + ... == 0.5 in floating point, unlike 0.25 or 0.3)
+    out.append(Scenario('acct', pat='stubborn', hook=None, fault=None, tier=tier, g=0.5))
     return out
 
 
@@ -89,7 +91,7 @@ def run(scn, ch):
 
     def make_world(ch):
         world = World(ch, [], check_delay=scn.p.get('tick', 1.0))
-        opts = dict(numprocesses=2, graceful_timeout=G, max_retry=2)
+        opts = dict(numprocesses=2, graceful_timeout=scn.p.get('g', G), max_retry=2)
         if scn.hook:
             name, outcome, k = scn.hook
             opts['hooks'] = {name: (nth_hook(world, k, outcome), False)}
